@@ -19,6 +19,17 @@ def main(prop):
     lem = tlc_stats(out)
     if tlc_failed(rc, out) or not lem['completed'] or 'is violated' in out:
         die_tool('ParSortMC: lemma violated (oracle defect)\n' + out[-3000:])
+    # the order properties of the comparison for unbounded integers: TLAPS
+    import subprocess, shutil, re
+    pdir = os.path.join(wd, 'proof')
+    shutil.rmtree(pdir, ignore_errors=True)
+    os.makedirs(pdir)
+    shutil.copy(os.path.join(SPEC, 'ParSortProof.tla'), pdir)
+    pr = subprocess.run(['timeout', '900', 'tlapm', '--threads', '4', 'ParSortProof.tla'], cwd=pdir, stdout=subprocess.PIPE, stderr=subprocess.STDOUT, text=True)
+    m = re.search(r'All (\d+) obligations? proved', pr.stdout)
+    if pr.returncode != 0 or not m:
+        die_tool('ParSortProof.tla: TLAPS did not prove the order lemmas (oracle defect)\n' + pr.stdout[-2000:])
+    proved = int(m.group(1))
     tdir = os.path.join(wd, 'trace')
     p = nvh(['sort-trace', '--tier', tier(), '--seed', seed(), '--shards', NCPU, '--out', tdir], timeout=7200)
     gen = json.loads(p.stdout.strip().splitlines()[-1])
@@ -82,6 +93,7 @@ def main(prop):
             r = dict(r, matches=r['matches'][:300] + ['...'], items=r['items'][:300] + ['...'])
         violations.append(({'kind': 'worker-order', 'property': prop, 'clauses': j['viol'], 'record': r, 'seed': seed(), 'tier': tier()}, txt))
     cov = {
+        'tlaps_obligations_proved': proved,
         'worker_runs_validated': wtot['runs'], 'worker_matches_compared': wtot['matches'], 'worker_adjacent_score_ties': wtot['ties'],
         'states': states + lem['distinct'], 'transitions': trans + lem['generated'],
         'traces_validated_against_impl': len(files) + len(wfiles),
